@@ -1652,6 +1652,11 @@ def rule_K9(run: Run, prog: Program, only: set | None = None) -> int:
                 anns.append(va.annotation)
             if not any(ks and any(prog.is_subclass(k, tensor) for k in ks) for ks in (prog.annotation_classes(fn.module, a) for a in anns)):
                 continue
+            # ... and at least one of them can be a collection: a parameter annotated with a bound single-object class (Point, Subspace, Line ...) cannot
+            if coll is not None and not any(
+                    ks and any(prog.is_subclass(k, tensor) and (prog.is_subclass(k, coll) or any(prog.is_subclass(c, coll) for c in prog.subclasses(k))) for k in ks)
+                    for ks in (prog.annotation_classes(fn.module, a) for a in anns)):
+                continue
         # names derived from coordinate data
         derived: set[str] = set()
         assigns = [st for st in walk_no_nested(fn.node) if isinstance(st, ast.Assign)]
